@@ -60,6 +60,7 @@ def oracle(c, r, devices):
         return "layout differs from the documented rule"
     for k in range(c["sweeps"]):
         p = perms[k]
+        ref.max_bits = 0
         if c["shuffle"]:
             if p is None or sorted(p) != list(range(n)):
                 return f"sweep {k + 1}: recorded order {p} is not a permutation of all states"
@@ -70,6 +71,8 @@ def oracle(c, r, devices):
         V = solverun.fracs(r["values"][k])
         want = refsolve.gs_sweep(ref, g, V, p if p is not None else list(range(n)), bs, nb, devices)
         got = solverun.fracs(r["values"][k + 1])
+        if ref.max_bits > solverun.BIT_BUDGET:
+            return "INEXACT"  # this permutation pushed the sweep outside the exact regime: not comparable bit for bit
         if got != want:
             bad = [i for i in range(n) if got[i] != want[i]][:3]
             return f"sweep {k + 1}: states {bad} are not the block Gauss-Seidel backups for the observed partition/permutation"
@@ -99,6 +102,7 @@ def run(ctx, build):
     devs = [1, 2] if quick else [1, 2, 3, 4]
     corr, viols = [], []
     total = 0
+    inexact = 0
     n_shuffled = 0
     redraw_ok = 0
     for dv in devs:
@@ -108,6 +112,9 @@ def run(ctx, build):
         for c, r in zip(sub, res):
             total += 1
             why = oracle(c, r, dv)
+            if why == "INEXACT":
+                inexact += 1
+                continue
             if why:
                 viols.append({"key": f"sweep:{c['seed']}:{dv}", "what": why, "input": {"case": c, "devices": dv}})
             if "error" in r:
@@ -146,7 +153,7 @@ def run(ctx, build):
         "rule": "generated MDPs x max_batch_size x device count x fixed/shuffled order x random_seed, 3 sweeps each; every sweep compared with the model under BOTH scatter resolutions "
                 "and with an independent block Gauss-Seidel driven by the observed partition and permutation; non-trivial = at least two batches per device",
         "samples": [{"seed": c["seed"], "nS": c["spec"]["nS"], "mb": c["mb"], "shuffle": c["shuffle"], "random_seed": c["random_seed"], "gamma": c["g"], "zero_is_state": c["spec"]["zero_is_state"], "zidx": c["spec"]["zidx"]} for c in cs[:6]],
-        "traces_validated_against_impl": total, "device_counts": devs,
+        "traces_validated_against_impl": total - inexact, "cases_outside_exact_regime_skipped": inexact, "device_counts": devs,
     }
     return {"coverage": cov, "corr_failures": corr, "impl_violations": viols,
             "assumptions": ["jax.random.permutation / key splitting is an oracle: the model takes the permutation as an input; that it is THE documented draw is checked by recomputation",
@@ -158,7 +165,7 @@ def search(ctx, build, res, time_budget=60):
     rr = core.run_workers(ctx, [job_of(c) for c in cs])
     for c, r in zip(cs, rr):
         why = oracle(c, r, 1)
-        if why:
+        if why and why != "INEXACT":
             return [{"key": f"sweep:{c['seed']}:1", "what": why, "input": {"case": c, "devices": 1}}]
     return []
 
@@ -169,4 +176,4 @@ def replay(ctx, build, data):
         return {"fails": False, "note": "no concrete input"}
     r = core.run_workers(ctx, [job_of(inp["case"])], devices=inp.get("devices", 1))[0]
     why = oracle(inp["case"], r, inp.get("devices", 1))
-    return {"fails": bool(why), "why": why}
+    return {"fails": bool(why) and why != "INEXACT", "why": why}
